@@ -68,7 +68,8 @@ def eval_dyad_amend(a, b, backend):
                     r[i] = b[0]
         return "".join(["".join(x) for x in r])
     r = np_backend.array(a) # clone
-    if is_list(b[0]): # TOOD: use bknp.put if we can
+    if is_list(b[0]) or r.ndim > 1: # a2..aN are members of the list: for a matrix these are its rows
+        # TOOD: use bknp.put if we can
         r = r.tolist()
         for i in b[1:]:
             r[i] = b[0]
@@ -82,13 +83,17 @@ def eval_dyad_amend(a, b, backend):
 def _widen_for(r, v):
     """Return array r with a dtype that can hold the new element v (an integer list amended with a
     real becomes a real list, with a string/character/symbol a mixed list) instead of truncating."""
-    if r.dtype != object:
-        kind = numpy.asarray(v).dtype.kind
-        if kind not in 'iufb':
-            return r.astype(object)
-        if kind == 'f' and r.dtype.kind in 'iu':
-            return r.astype(float)
-    return r
+    if r.dtype == object:
+        return r
+    vk = numpy.asarray(v).dtype.kind
+    rk = r.dtype.kind
+    if rk in 'iu' and vk in 'iub':
+        return r
+    if rk in 'iu' and vk == 'f':
+        return r.astype(float)
+    if rk == 'f' and vk in 'iufb':
+        return r
+    return r.astype(object)
 
 
 def _e_dyad_amend_in_depth(p, q, v):
